@@ -16,9 +16,9 @@ MANIFEST = {
     "technique": "exhaustive depth-bounded exploration of trajectory-operation histories on real objects against an "
                  "array-tuple reference model, with a precentered-vs-from-scratch RMSD differential in every state",
     "text": "From 3 initial trajectories (5 frames/7 atoms incl. waters with cell and explicit time; no cell/default time; "
-            "1 frame) every sequence of up to 2 (thorough 3) operations of a 27-op alphabet {t[0], t[-1], t[1:4], t[::2], "
+            "1 frame) every sequence of up to 2 (thorough 3) operations of a 28-op alphabet {t[0], t[-1], t[1:4], t[::2], "
             "t[::-1], t[[3,1]], t[mask], slice(copy=False), t+t, join([..]), md.join, stack, atom_slice (inplace F/T), "
-            "center_coordinates (mass_weighted F/T), superpose, remove_solvent (inplace F/T), xyz/time/unitcell assignment} "
+            "center_coordinates (mass_weighted F/T), superpose onto itself and onto an off-origin reference, remove_solvent (inplace F/T), xyz/time/unitcell assignment} "
             "is executed. After every step: all fields equal the model (same numpy indexing) and have equal length; result "
             "coordinates never share memory with an input; slice(copy=True)/join/atom_slice share no array or topology "
             "object; md.rmsd(precentered=True) equals precentered=False for every frame within the QCP error model; in "
@@ -103,7 +103,7 @@ class Model:
         ops.append(("stack",))
         if na >= 2:
             ops += [("atom_slice", False), ("atom_slice", True)]
-        ops += [("center", False), ("center", True), ("superpose",)]
+        ops += [("center", False), ("center", True), ("superpose",), ("superpose_shifted",)]
         ops += [("remove_solvent", False), ("remove_solvent", True)]
         ops += [("set_xyz",), ("set_time",)]
         if self.L is not None:
@@ -159,10 +159,13 @@ class Model:
                 com = self.xyz.mean(1)
             self.xyz = self.xyz - com[:, None, :]
             self.fuzzy = True
-        elif k == "superpose":
+        elif k in ("superpose", "superpose_shifted"):
             from vlib.refmodels import rmsd_kabsch
             if self.na >= 3:
-                r = rmsd_kabsch.kabsch(self.xyz, self.xyz[0])
+                # superpose_shifted: the reference is frame 0 moved away from the origin (1.5, -0.5, 2.0) nm, so the
+                # result is NOT centred and any cached centring information must be dropped
+                refx = self.xyz[0] + (np.array([1.5, -0.5, 2.0]) if k == "superpose_shifted" else 0.0)
+                r = rmsd_kabsch.kabsch(self.xyz, refx)
                 self.xyz = (self.xyz - r["ca"]) @ r["R"] + r["cb"]
             else:
                 self.xyz = None   # fewer than 3 atoms: rotation not unique; only invariants are checked, model syncs
@@ -235,6 +238,10 @@ def apply_real(t, op):
         return t, [], "inplace"
     if k == "superpose":
         t.superpose(t, 0)
+        return t, [], "inplace"
+    if k == "superpose_shifted":
+        ref = md.Trajectory(t.xyz[:1] + np.array([1.5, -0.5, 2.0], dtype=np.float32), t.topology)
+        t.superpose(ref, 0)
         return t, [], "inplace"
     if k == "set_xyz":
         t.xyz = t.xyz + 1.0
